@@ -79,8 +79,10 @@ PROPS = {
     },
     'C16': {
         'lean': ['Netpol.Properties.C16', 'Netpol.Tie.Consts'],
-        'families': [('focus', 500, 20000)],
-        'rule': 'worlds queried unfocused and with --focusworkload for every workload name, some namespace/name forms, absent names and ingress-controller; '
+        'families': [('focus', 500, 20000), ('fmt', 150, 3000)],
+        'accept_props': ['C16'],
+        'shard_min': 50,
+        'rule': 'fmt family: the command itself with a focus (existing, absent, namespace/name, near miss) in every format must succeed wherever the library does. focus family: worlds queried unfocused and with --focusworkload for every workload name, some namespace/name forms, absent names and ingress-controller; '
                 'P: the focused result equals the filter of the unfocused one; absent focus gives an empty result with a warning naming it',
         'assumptions': [],
     },
@@ -104,8 +106,10 @@ PROPS = {
         'lean': ['Netpol.Properties.C08'],
         'families': [('shuffle', 1200, 20000), ('fmt', 400, 6000)],
         'shard_min': 40,
-        'rule': 'worlds and a permutation (documents reordered and spread over 1-4 files, rules/peers/ports permuted); both runs must give the identical relation; '
-                'fmt family: every list format (txt, json, dot, csv, md; exposure on/off, focus) and diff format (txt, csv, md, dot) produced twice by fresh analyzers must be byte-identical',
+        'rule': 'worlds (with Services / Ingresses / Routes, conflicting same-priority admin policies, potential peers that differ in `-` / `_` only) and a permutation (documents reordered and spread over 1-4 files, '
+                'rules / peers / ports / values of In-NotIn requirements permuted); both layouts must give the identical relation, byte-identical output in every list format with exposure on and off, an empty diff, '
+                'the same CheckIfAllowed answers on every pair of pods / probe addresses, and the same output of the eval command; '
+                'fmt family: every list format (txt, json, dot, csv, md; exposure on/off, focus) and diff format (txt, csv, md, dot) produced repeatedly by fresh analyzers must be byte-identical',
         'assumptions': ['stdout / returned strings only'],
     },
     'C10': {
